@@ -47,6 +47,12 @@ LIB = """{
   comp: [if i == 2 then error 'c2' else i * $.a for i in [1, 2, 3]],
   ocomp: { [k]: if k == 'y' then error 'oy' else $.a for k in ['x', 'y'] },
   keyed: std.sort([3, 1, 2], function(x) if x == 2 then error 'key2' else x),
+  condfail: { assert $.fail > 0 : 'unreachable', y: 2 },
+  conddeep: { assert $.rec(100) > 0 : 'unreachable', y: 3 },
+  condnested: { assert self.inner.z > 0 : 'outer', inner: { assert false : 'inner bad', z: 1 }, y: 4 },
+  msgfail: { assert false : $.fail, y: 5 },
+  condtype: { assert 1 + 'x' - 1 > 0 : 'unreachable', y: 6 },
+  condchild: { assert std.length(self.kids) > 0, kids: [$.condfail.y], y: 7 },
 }"""
 
 SOURCES = [
@@ -144,6 +150,19 @@ SOURCES = [
     "std.extVar('zq' + 'x')",
     "std.objectHas({}, 'zq' + 'v')",
     "local o = { a: super['zq' + 'x'], zqx: 1 }; [o.zqx, std.objectHas(o, 'zq' + 'x')]",
+    # 92.. a request that dies *inside* an assertion (condition or message fails, overflows, or reads an object whose own assertion fails)
+    "std.extVar('lib').condfail.y",
+    "std.extVar('lib').condfail",
+    "std.extVar('lib').conddeep.y",
+    "std.extVar('lib').condnested.y",
+    "std.extVar('lib').condnested",
+    "std.extVar('lib').msgfail.y",
+    "std.extVar('lib').condtype.y",
+    "std.extVar('lib').condchild.y",
+    "local l = import 'lib.libsonnet'; [l.condfail.y]",
+    "local l = import 'lib.libsonnet'; l.condnested.inner.z",
+    "local l = import 'lib.libsonnet'; l.conddeep.y + l.msgfail.y",
+    "(std.extVar('lib').condfail + { z: 1 }).z",
 ]
 FUNCS = {20, 21, 22, 23, 49, 88}
 STACKS = [5, 20, 45, 60, 130, 500]
@@ -164,6 +183,7 @@ THEMES = [
     [55, 56, 57, 58, 59, 60, 61, 62, 68, 69, 70, 76, 77],   # objects derived from a shared self-referential object
     [71, 72, 73, 5, 6, 4],                              # arrays derived from shared arrays (elements are shared thunks)
     [78, 79, 80, 81, 82, 83, 84, 85, 86, 87, 88, 89, 90, 91],   # run-time names vs names interned by other sources
+    [92, 93, 94, 95, 96, 97, 98, 99, 100, 101, 102, 103, 1, 2],  # requests that die inside an assertion
     list(range(len(SOURCES))),
 ]
 
